@@ -105,7 +105,7 @@ theorem C03_fresh_is_core_rhs (c : Content) (hd : c.data = []) (vals : List Rat)
         apply List.filter_eq_self.mpr
         intro kv _
         rfl
-      simp only [pure, Except.pure, this]
+      simp only [pure, Except.pure, this, List.append_nil]
 
 /-! ## one name space, kept exact by every edit -/
 
